@@ -43,6 +43,8 @@ var anchoredFiles = []string{
 	"model3d/mc.go", "model3d/dc.go", "model2d/rasterize.go", "model2d/curves.go",
 	"render3d/concurrency.go", "render3d/ray_renderer.go", "render3d/raycast.go",
 	"numerical/k_means.go", "toolbox3d/height_map.go",
+	// not anchors of the property, but the remaining worker pools of the same packages
+	"model2d/marching.go", "model3d/export.go", "toolbox3d/color_func.go",
 }
 
 // Packages whose query methods are checked for receiver writes.
@@ -60,6 +62,14 @@ var querySites = map[string]bool{
 	"model2d.JoinedCollider.CircleCollision": true, "model2d.ColliderSolid.Contains": true,
 	"render3d.colorFuncObject.Cast": true, "render3d.ColliderObject.Cast": true, "render3d.JoinedObject.Cast": true,
 	"render3d.FilteredObject.Cast": true, "render3d.PhongMaterial.BSDF": true,
+}
+
+// Query closures that must still be found.
+var closureSites = map[string]bool{
+	"model3d.SmoothJoin#CheckedFuncSolid1": true, "model3d.SmoothJoinV2#CheckedFuncSolid1": true,
+	"model2d.SmoothJoin#CheckedFuncSolid1": true, "model2d.SmoothJoinV2#CheckedFuncSolid1": true,
+	"model3d.SDFToSolid#CheckedFuncSolid1": true, "model3d.ProfileSolid#CheckedFuncSolid1": true,
+	"model2d.CacheScalarFunc#return1": true,
 }
 
 type eff struct{ kind, target string }
@@ -133,6 +143,12 @@ type pkgInfo struct {
 	// function / method name -> package-level variables it writes with plain assignments,
 	// directly or through functions it calls (calls resolved by name: an over-approximation)
 	globalWriters map[string][]string
+	// query closures (function literals that become the query method of a Solid / SDF / color
+	// function: arguments of FuncSolid, CheckedFuncSolid, FuncSDF, FuncPointSDF, or returned by
+	// the enclosing function): every site "Func#kind<k>", and the writes to variables captured
+	// from the enclosing function (or package level) they perform, "Func#kind<k>: lhs"
+	closureAll []string
+	closureMut []string
 }
 
 // Names of the read-only query methods of the library's interfaces (Collider and its
@@ -169,7 +185,10 @@ func analysePackage(dir string) (*pkgInfo, error) {
 	info := &pkgInfo{mutating: map[string]bool{}, pure: map[string]bool{}, accessor: map[string]bool{},
 		globalWriters: map[string][]string{}}
 	var parsed []*ast.File
-	defer func() { info.globalWriters = globalWriters(parsed) }()
+	defer func() {
+		info.globalWriters = globalWriters(parsed)
+		info.closureAll, info.closureMut = queryClosures(fset, parsed)
+	}()
 	for _, e := range entries {
 		n := e.Name()
 		if !strings.HasSuffix(n, ".go") || strings.HasSuffix(n, "_test.go") || strings.HasPrefix(n, "verif_export") {
@@ -356,6 +375,208 @@ func analysePackage(dir string) (*pkgInfo, error) {
 	return info, nil
 }
 
+// Constructors that turn a function literal into a value of one of the query interfaces.
+var closureCtors = map[string]bool{"FuncSolid": true, "CheckedFuncSolid": true, "FuncSDF": true, "FuncPointSDF": true}
+
+// queryClosures finds the function literals of a package that become query methods -- the
+// argument of FuncSolid / CheckedFuncSolid / FuncSDF / FuncPointSDF, or a literal returned by a
+// function whose result is a ColorFunc / CoordColorFunc (or by CacheScalarFunc) -- and lists every write
+// they perform on a variable that is not their own: an assignment / ++ / delete / copy whose
+// root identifier is declared outside the literal (captured from the enclosing function, i.e.
+// allocated once per structure and shared by all calls, or package level), and element writes /
+// appends through a local slice alias of such a variable.  Synchronous callbacks nested in the
+// literal may write the literal's own locals.
+func queryClosures(fset *token.FileSet, files []*ast.File) (all, mut []string) {
+	for _, f := range files {
+		for _, d := range f.Decls {
+			fd, ok := d.(*ast.FuncDecl)
+			if !ok || fd.Body == nil {
+				continue
+			}
+			fname := fd.Name.Name
+			if fd.Recv != nil && len(fd.Recv.List) > 0 {
+				t := strings.TrimPrefix(exprStr(fset, fd.Recv.List[0].Type), "*")
+				if i := strings.Index(t, "["); i >= 0 {
+					t = t[:i]
+				}
+				fname = t + "." + fname
+			}
+			bound := map[string]*ast.FuncLit{}
+			type site struct {
+				kind string
+				lit  *ast.FuncLit
+			}
+			var sites []site
+			seen := map[*ast.FuncLit]bool{}
+			add := func(kind string, fl *ast.FuncLit) {
+				if fl != nil && !seen[fl] {
+					seen[fl] = true
+					sites = append(sites, site{kind, fl})
+				}
+			}
+			var walk func(n ast.Node, top bool)
+			walk = func(n ast.Node, top bool) {
+				ast.Inspect(n, func(n ast.Node) bool {
+					switch x := n.(type) {
+					case *ast.FuncLit:
+						// statements of a nested literal: its returns are not the function's
+						walk(x.Body, false)
+						return false
+					case *ast.AssignStmt:
+						for i, l := range x.Lhs {
+							if id, ok := l.(*ast.Ident); ok && i < len(x.Rhs) && len(x.Lhs) == len(x.Rhs) {
+								if fl, ok := x.Rhs[i].(*ast.FuncLit); ok {
+									bound[id.Name] = fl
+								}
+							}
+						}
+					case *ast.CallExpr:
+						name := ""
+						switch fn := x.Fun.(type) {
+						case *ast.Ident:
+							name = fn.Name
+						case *ast.SelectorExpr:
+							name = fn.Sel.Name
+						}
+						if closureCtors[name] {
+							for _, a := range x.Args {
+								switch y := a.(type) {
+								case *ast.FuncLit:
+									add(name, y)
+								case *ast.Ident:
+									add(name, bound[y.Name])
+								}
+							}
+						}
+					case *ast.ReturnStmt:
+						if top {
+							for _, r := range x.Results {
+								switch y := r.(type) {
+								case *ast.FuncLit:
+									add("return", y)
+								case *ast.Ident:
+									add("return", bound[y.Name])
+								}
+							}
+						}
+					}
+					return true
+				})
+			}
+			// A returned literal is a query closure only where the documentation makes the result
+			// a value used from many goroutines: the color functions (called from the renderers'
+			// workers through Objectify / RenderColor) and CacheScalarFunc.  Other returned
+			// closures may be stateful by contract (ARAP.SeqDeformer: "not safe to call from
+			// multiple Goroutines").
+			retQuery := fd.Name.Name == "CacheScalarFunc" && fd.Recv == nil
+			if fd.Type.Results != nil && len(fd.Type.Results.List) == 1 {
+				rt := exprStr(fset, fd.Type.Results.List[0].Type)
+				if strings.HasSuffix(rt, "ColorFunc") {
+					retQuery = true
+				}
+			}
+			walk(fd.Body, retQuery)
+			count := map[string]int{}
+			for _, s := range sites {
+				count[s.kind]++
+				label := fmt.Sprintf("%s#%s%d", fname, s.kind, count[s.kind])
+				all = append(all, label)
+				for _, w := range capturedWrites(fset, s.lit) {
+					mut = append(mut, label+": "+w)
+				}
+			}
+		}
+	}
+	sort.Strings(all)
+	sort.Strings(mut)
+	return
+}
+
+// capturedWrites lists the plain writes of a function literal to variables it did not declare.
+func capturedWrites(fset *token.FileSet, fl *ast.FuncLit) []string {
+	locals := map[string]bool{}
+	collectLocals(fl, locals)
+	outer := func(id *ast.Ident) bool { return id != nil && id.Name != "_" && !locals[id.Name] }
+	// local slices that share the backing array of a captured variable
+	alias := map[string]bool{}
+	ast.Inspect(fl.Body, func(n ast.Node) bool {
+		as, ok := n.(*ast.AssignStmt)
+		if !ok || len(as.Lhs) != len(as.Rhs) {
+			return true
+		}
+		for i, r := range as.Rhs {
+			if se, ok := r.(*ast.SliceExpr); ok {
+				if root := rootIdent(se.X); root != nil && (outer(root) || alias[root.Name]) {
+					if id, ok := as.Lhs[i].(*ast.Ident); ok && id.Name != "_" && locals[id.Name] {
+						alias[id.Name] = true
+					}
+				}
+			}
+		}
+		return true
+	})
+	var out []string
+	seen := map[string]bool{}
+	add := func(n ast.Node) {
+		s := exprStr(fset, n)
+		if !seen[s] {
+			seen[s] = true
+			out = append(out, s)
+		}
+	}
+	lhs := func(e ast.Expr) {
+		r := rootIdent(e)
+		if r == nil {
+			return
+		}
+		if outer(r) {
+			add(e)
+			return
+		}
+		if alias[r.Name] {
+			if _, ok := e.(*ast.IndexExpr); ok {
+				add(e)
+			}
+		}
+	}
+	ast.Inspect(fl.Body, func(n ast.Node) bool {
+		switch x := n.(type) {
+		case *ast.AssignStmt:
+			if x.Tok != token.DEFINE {
+				for _, l := range x.Lhs {
+					lhs(l)
+				}
+			}
+		case *ast.IncDecStmt:
+			lhs(x.X)
+		case *ast.RangeStmt:
+			if x.Tok == token.ASSIGN {
+				for _, l := range []ast.Expr{x.Key, x.Value} {
+					if l != nil {
+						lhs(l)
+					}
+				}
+			}
+		case *ast.CallExpr:
+			if id, ok := x.Fun.(*ast.Ident); ok && len(x.Args) > 0 {
+				r := rootIdent(x.Args[0])
+				switch id.Name {
+				case "delete", "copy":
+					if r != nil && (outer(r) || alias[r.Name]) {
+						add(x)
+					}
+				case "append":
+					if a, ok := x.Args[0].(*ast.Ident); ok && alias[a.Name] {
+						add(x)
+					}
+				}
+			}
+		}
+		return true
+	})
+	return out
+}
+
 // globalWriters computes, for every function and method name of a package, the package-level
 // variables written by plain assignment in its body or in the bodies of the functions it calls
 // (callees are resolved by bare name, so the result over-approximates).
@@ -464,6 +685,7 @@ type wctx struct {
 	own     map[string]bool // own-index derived identifiers
 	aliasOk map[string]bool // local pointer obtained from accessor(own index) or &shared[own]
 	aliasSh map[string]bool // local pointer into captured state, not own-indexed
+	aliasSl map[string]bool // local slice sharing the backing array of captured state (`x := shared.f[a:b]`)
 	chans   map[string]bool // channel variable names of the enclosing function
 	skip    map[*ast.FuncLit]bool
 	effects []eff
@@ -489,10 +711,12 @@ func collectLocals(n ast.Node, into map[string]bool) {
 	ast.Inspect(n, func(n ast.Node) bool {
 		switch x := n.(type) {
 		case *ast.FuncLit:
-			if x.Type.Params != nil {
-				for _, p := range x.Type.Params.List {
-					for _, nm := range p.Names {
-						into[nm.Name] = true
+			for _, fl := range []*ast.FieldList{x.Type.Params, x.Type.Results} {
+				if fl != nil {
+					for _, p := range fl.List {
+						for _, nm := range p.Names {
+							into[nm.Name] = true
+						}
 					}
 				}
 			}
@@ -641,11 +865,26 @@ func (w *wctx) expr(e ast.Node, locked bool, stmtCall *ast.CallExpr) {
 						w.add("chanClose", x.Args[0])
 					}
 				case "delete", "copy":
-					if len(x.Args) > 0 && w.shared(rootIdent(x.Args[0])) {
+					if len(x.Args) == 0 {
+						break
+					}
+					if r := rootIdent(x.Args[0]); w.shared(r) || (r != nil && w.aliasSl[r.Name]) {
 						if locked {
 							w.add("locked", x)
 						} else {
 							w.add("plainWrite", x)
+						}
+					}
+				case "append":
+					// appending to a slice that shares the backing array of captured state writes
+					// that array (whenever the capacity suffices): `buf := shared.f[:0]; buf = append(buf, v)`
+					if len(x.Args) > 0 {
+						if r := rootIdent(x.Args[0]); r != nil && w.locals[r.Name] && w.aliasSl[r.Name] {
+							if locked {
+								w.add("locked", x)
+							} else {
+								w.add("plainWrite", x)
+							}
 						}
 					}
 				}
@@ -740,6 +979,24 @@ func (w *wctx) define(lhs []ast.Expr, rhs []ast.Expr) {
 					} else {
 						w.aliasSh[id.Name] = true
 					}
+				}
+			}
+		case *ast.SliceExpr:
+			// `buf := captured.f[a:b]` (also of another such alias): the local slice header is the
+			// worker's, the backing array is the captured one.  A window cut out with the worker's
+			// own index (`out[i*k : (i+1)*k]`) is an own element.
+			if rt := rootIdent(x.X); rt != nil && (w.shared(rt) || w.aliasSl[rt.Name]) {
+				ownWindow := false
+				for _, b := range []ast.Expr{x.Low, x.High} {
+					if b != nil && mentions(b, w.own) {
+						ownWindow = true
+					}
+				}
+				if ownWindow || w.hasOwnIndex(x.X) {
+					w.aliasOk[id.Name] = true
+				} else {
+					w.aliasSl[id.Name] = true
+					w.aliasSh[id.Name] = true
 				}
 			}
 		}
@@ -1019,7 +1276,7 @@ func analyseFile(root, rel string, pkg *pkgInfo) ([]workerFact, *token.FileSet, 
 		for _, s := range sites {
 			newCtx := func(scope ast.Node) *wctx {
 				w := &wctx{fset: fset, pkg: pkg, locals: map[string]bool{}, own: map[string]bool{},
-					aliasOk: map[string]bool{}, aliasSh: map[string]bool{}, chans: chans,
+					aliasOk: map[string]bool{}, aliasSh: map[string]bool{}, aliasSl: map[string]bool{}, chans: chans,
 					skip: map[*ast.FuncLit]bool{}, seen: map[eff]bool{}}
 				collectLocals(scope, w.locals)
 				for fl := range launchLits {
@@ -1575,6 +1832,27 @@ func genConcFacts(repoRoot string) (string, error) {
 	fmt.Fprintf(&b, "/-- Number of query methods analysed. -/\ndef queryMethodCount : Nat := %d\n", nq)
 	fmt.Fprintf(&b, "/-- The sites the staged-query model stands for that the extractor found. -/\n")
 	fmt.Fprintf(&b, "def querySitesSeen : List String := %s\n\n", leanStrList(qseen))
+
+	var cmut, cseen []string
+	nc := 0
+	for _, pk := range queryPackages {
+		pi := pkgs[filepath.Join(repoRoot, pk)]
+		for _, q := range pi.closureMut {
+			cmut = append(cmut, pk+"."+q)
+		}
+		for _, q := range pi.closureAll {
+			nc++
+			if closureSites[pk+"."+q] {
+				cseen = append(cseen, pk+"."+q)
+			}
+		}
+	}
+	sort.Strings(cseen)
+	fmt.Fprintf(&b, "/-- Writes to captured (per-structure) or package-level variables inside query closures of %s:\nthe function literals given to FuncSolid / CheckedFuncSolid / FuncSDF / FuncPointSDF and the literals a\nfunction returns (color functions, scalar functions).  Such a variable is allocated once per structure and\nshared by all calls.  Must be empty (`owned_state_noninterference`; `query_field_scratch_racy` is the\nwitness otherwise). -/\n", strings.Join(queryPackages, ", "))
+	fmt.Fprintf(&b, "def queryClosureWrites : List String := %s\n", leanStrList(cmut))
+	fmt.Fprintf(&b, "/-- Number of query closures analysed. -/\ndef queryClosureCount : Nat := %d\n", nc)
+	fmt.Fprintf(&b, "/-- The closure sites the staged-query model stands for that the extractor found. -/\n")
+	fmt.Fprintf(&b, "def queryClosureSitesSeen : List String := %s\n\n", leanStrList(cseen))
 
 	b.WriteString("/-- Every worker closure of the anchored files with its effects on captured state. -/\n")
 	b.WriteString("def workers : List Worker := [\n")
